@@ -53,11 +53,17 @@ const (
 	KSilent
 	KRefused
 	KOwnOPT
+	// KUnencodable: the handler writes an answer that cannot be packed (a TXT
+	// string over 255 octets, or a name with a label over 63 octets).
+	KUnencodable
+	// KHuge: an answer whose packed size with an empty OPT record is 65500 to
+	// 65535 octets, so that padding or keep-alive pushes it over 64 KiB.
+	KHuge
 	NKinds
 )
 
 // KindNames are printable names of the kinds.
-var KindNames = [...]string{"one", "multi", "cname", "nodata", "nxdomain", "large", "handler-error", "silent", "refused", "own-opt"}
+var KindNames = [...]string{"one", "multi", "cname", "nodata", "nxdomain", "large", "handler-error", "silent", "refused", "own-opt", "unencodable", "huge"}
 
 // Mode tells what the reference handler does with a query.
 type Mode int
@@ -70,6 +76,9 @@ const (
 	ModeError
 	// ModeSilent: the handler writes nothing and returns nil.
 	ModeSilent
+	// ModeUnencodable: the handler writes one response that cannot be packed
+	// and returns the writer's error, if any.
+	ModeUnencodable
 )
 
 // Hash is FNV-1a 32.
@@ -200,6 +209,18 @@ func Ref(req *dns.Msg) (resp *dns.Msg, mode Mode) {
 		}
 	case KRefused:
 		resp.Rcode = dns.RcodeRefused
+	case KUnencodable:
+		if h&4 == 0 {
+			resp.Answer = []dns.RR{&dns.TXT{Hdr: dns.RR_Header{Name: q.Name, Rrtype: dns.TypeTXT, Class: q.Qclass, Ttl: 60}, Txt: []string{strings.Repeat("u", 256+int(h>>5)%40)}}}
+		} else {
+			resp.Answer = []dns.RR{&dns.CNAME{Hdr: dns.RR_Header{Name: q.Name, Rrtype: dns.TypeCNAME, Class: q.Qclass, Ttl: 60}, Target: strings.Repeat("l", 64+int(h>>5)%8) + ".test."}}
+		}
+
+		return resp, ModeUnencodable
+	case KHuge:
+		hugeAnswer(resp, q, 65500-11+int(h>>4)%36)
+
+		return resp, ModeAnswer
 	case KOwnOPT:
 		resp.Answer = []dns.RR{refRR(q.Name, at, q.Qclass, h, 1, false)}
 		resp.SetEdns0(1232, false)
@@ -230,6 +251,59 @@ func Ref(req *dns.Msg) (resp *dns.Msg, mode Mode) {
 	}
 
 	return resp, ModeAnswer
+}
+
+// hugeAnswer fills resp with TXT records so that its compressed packed size is
+// exactly target octets.
+func hugeAnswer(resp *dns.Msg, q dns.Question, target int) {
+	rr := func(n int) *dns.TXT {
+		t := &dns.TXT{Hdr: dns.RR_Header{Name: q.Name, Rrtype: dns.TypeTXT, Class: q.Qclass, Ttl: 300}}
+		for n > 0 {
+			l := min(255, n-1)
+			t.Txt = append(t.Txt, strings.Repeat("h", l))
+			n -= l + 1
+		}
+
+		return t
+	}
+
+	size := func() int {
+		c := *resp
+		c.Compress = true
+		b, err := c.Pack()
+		if err != nil {
+			panic(fmt.Errorf("vc01ref: huge answer does not pack: %w", err))
+		}
+
+		return len(b)
+	}
+
+	resp.Answer = []dns.RR{rr(200)}
+	per := size()
+	resp.Answer = nil
+	per -= size()
+	for n := (target - size() - 600) / per; n > 0; n-- {
+		resp.Answer = append(resp.Answer, rr(200))
+	}
+
+	// The last record takes what is left; its header size depends on the name.
+	last := rr(300)
+	resp.Answer = append(resp.Answer, last)
+	for i := 0; i < 4; i++ {
+		d := target - size()
+		if d == 0 {
+			return
+		}
+
+		n := 0
+		for _, s := range last.Txt {
+			n += 1 + len(s)
+		}
+
+		*last = *rr(n + d)
+	}
+
+	panic(fmt.Errorf("vc01ref: cannot size the huge answer to %d (have %d)", target, size()))
 }
 
 // ErrReply is the documented shape of an error reply to req: same ID, the
@@ -365,6 +439,10 @@ func (c *Case) Classes() []string {
 		if len(c.Req.Question[0].Name) >= 250 {
 			cl = append(cl, "max-length-name")
 		}
+
+		if c.Mode == ModeUnencodable {
+			cl = append(cl, "first-write-fails-unencodable")
+		}
 	}
 
 	if c.Verdict == VUndecodable && len(c.Wire) >= 12 {
@@ -494,6 +572,23 @@ func (c *Case) Expect(tr Transport) (k ExpectKind, want *dns.Msg, loose bool) {
 		return NoMessage, nil, false
 	case VNotImp, VFormErr:
 		return MustReply, c.Want, true
+	}
+
+	if c.Mode == ModeUnencodable {
+		// The first write fails.  Where the handler writes to the socket itself
+		// (UDP, TCP, DoT) it gets the error, returns it, and the server answers
+		// SERVFAIL (serveDNSMsgInternal); where the response is recorded and
+		// written after the handler has returned, the transport gives up: DoH with
+		// an HTTP error, DoQ with a protocol error, DNSCrypt with its library's
+		// SERVFAIL or nothing.
+		switch {
+		case tr.DNSCrypt:
+			return ReplyOrNone, ErrReply(c.Req, dns.RcodeServerFailure), true
+		case tr.HTTP, tr.DoQ:
+			return NoMessage, nil, false
+		default:
+			return MustReply, ErrReply(c.Req, dns.RcodeServerFailure), true
+		}
 	}
 
 	if c.Mode == ModeSilent {
@@ -798,6 +893,10 @@ func Frames(b []byte) (msgs [][]byte, err error) {
 func Judge(tr Transport, c *Case, r Result, o CheckOpts) (full string, classes []string, err error) {
 	kind, want, loose := c.Expect(tr)
 	classes = []string{tr.Name + ":" + ExpectNames[kind]}
+	if c.Verdict == VAccept && c.Kind == KHuge && c.Mode == ModeAnswer && kind == MustReply && !o.Raw {
+		return judgeHuge(tr, c, r, o, classes)
+	}
+
 	if len(r.Msgs) > 1 {
 		return "", classes, fmt.Errorf("%d DNS messages came back for one input", len(r.Msgs))
 	}
@@ -808,6 +907,17 @@ func Judge(tr Transport, c *Case, r Result, o CheckOpts) (full string, classes [
 		if uerr := got.Unpack(r.Msgs[0]); uerr != nil {
 			return "", classes, fmt.Errorf("the response does not decode: %w: %x", uerr, r.Msgs[0])
 		}
+	}
+
+	if got != nil && c.Verdict == VAccept && c.Mode == ModeUnencodable && tr.Datagram && got.Truncated && len(got.Answer) == 0 && got.Rcode == dns.RcodeSuccess {
+		// Over the size limit the record that cannot be encoded is dropped by
+		// the truncation before anything is packed: a truncated NOERROR is the
+		// right answer then.
+		if ferr := CheckForeign(c, got); ferr != nil {
+			return "", classes, ferr
+		}
+
+		return "", append(classes, "truncated-on-"+tr.Name), nil
 	}
 
 	switch kind {
@@ -867,6 +977,85 @@ func Judge(tr Transport, c *Case, r Result, o CheckOpts) (full string, classes [
 	}
 
 	return Canon(got), classes, nil
+}
+
+// judgeHuge judges the answer to a query whose reference answer is within a
+// few dozen octets of 64 KiB.  What the transport's additions (OPT, echoed
+// options, padding, keep-alive) do to it is a matter of sizes (C08); here the
+// outcome must be exactly one of: the complete answer; a truncated one (TC,
+// empty answer section); or, where the padded / extended message no longer
+// fits a 2-octet length prefix, the server's SERVFAIL for the failed write
+// (DoQ: protocol error).  It is never "nothing" on UDP, TCP and DoT.
+func judgeHuge(tr Transport, c *Case, r Result, o CheckOpts, classes []string) (full string, cl []string, err error) {
+	if len(r.Msgs) > 1 {
+		return "", classes, fmt.Errorf("%d DNS messages came back for one input", len(r.Msgs))
+	}
+
+	if len(r.Msgs) == 0 {
+		if tr.DoQ && r.Treatment == DoQProtocolError {
+			return "", append(classes, tr.Name+":huge-protocol-error"), nil
+		}
+
+		if tr.DNSCrypt || (tr.HTTP && strings.HasPrefix(r.Treatment, "http-5")) {
+			return "", append(classes, tr.Name+":huge-none"), nil
+		}
+
+		return "", classes, fmt.Errorf("no DNS message came back (%s) for a query whose answer is %d octets", r.Treatment, c.Want.Len())
+	}
+
+	got := &dns.Msg{}
+	if uerr := got.Unpack(r.Msgs[0]); uerr != nil {
+		return "", classes, fmt.Errorf("the response does not decode: %w", uerr)
+	}
+
+	switch {
+	case got.Rcode == dns.RcodeServerFailure:
+		if err = CheckReply(tr, c, ErrReply(c.Req, dns.RcodeServerFailure), got, true, o); err != nil {
+			return "", classes, err
+		}
+
+		classes = append(classes, tr.Name+":huge-servfail")
+		if c.ReqPadding && tr.Padding {
+			classes = append(classes, "first-write-fails-too-large-after-padding")
+		}
+
+		return "", classes, nil
+	case got.Truncated:
+		if ferr := CheckForeign(c, got); ferr != nil {
+			return "", classes, ferr
+		}
+
+		if tr.DNSCrypt && !tr.Datagram {
+			// The DNSCrypt library truncates its TCP answers to 64 KiB minus its
+			// own overhead and keeps the records that fit.
+			wrt, rerr := roundTrip(c.Want)
+			if rerr != nil {
+				return "", classes, fmt.Errorf("harness: %w", rerr)
+			}
+
+			if !subset(rrStrings(got.Answer), rrStrings(wrt.Answer)) {
+				return "", classes, fmt.Errorf("truncated response carries records the pipeline did not produce")
+			}
+		} else if len(got.Answer) != 0 {
+			return "", classes, fmt.Errorf("truncated response carries %d answers, rcode %d", len(got.Answer), got.Rcode)
+		}
+
+		if got.Rcode != c.Want.Rcode {
+			return "", classes, fmt.Errorf("truncated response has rcode %d", got.Rcode)
+		}
+
+		return "", append(classes, "truncated-on-"+tr.Name), nil
+	}
+
+	if c.ReqOPT == nil && tr.Stream {
+		classes = append(classes, tr.Name+":huge-complete-without-edns")
+	}
+
+	if err = CheckReply(tr, c, c.Want, got, false, o); err != nil {
+		return "", classes, err
+	}
+
+	return "", append(classes, tr.Name+":huge-complete"), nil
 }
 
 // ---------------------------------------------------------------------------
@@ -1331,7 +1520,8 @@ func DrawQuery(t *rapid.T) *dns.Msg {
 		m.Opcode = dns.OpcodeNotify
 	}
 
-	name := DrawName(t, DrawKind(t))
+	kind := DrawKind(t)
+	name := DrawName(t, kind)
 	m.Question = []dns.Question{{
 		Name:   name,
 		Qtype:  rapid.OneOf(rapid.SampledFrom(QTypes), rapid.Uint16()).Draw(t, "qtype"),
@@ -1364,6 +1554,13 @@ func DrawQuery(t *rapid.T) *dns.Msg {
 		}
 
 		opt.Option = drawOptions(t)
+		if kind == int(KHuge) && rapid.Bool().Draw(t, "hugePadding") {
+			opt.Option = []dns.EDNS0{&dns.EDNS0_PADDING{Padding: make([]byte, 3)}}
+			if rapid.Bool().Draw(t, "hugeKeepalive") {
+				opt.Option = append(opt.Option, &dns.EDNS0_TCP_KEEPALIVE{Code: dns.EDNS0TCPKEEPALIVE})
+			}
+		}
+
 		m.Extra = append(m.Extra, opt)
 
 		// Queries of exactly limit-1, limit, limit+1 octets for the 512-octet
